@@ -40,7 +40,7 @@ Definition so_raw_pop_rhs_is_depth : bool := true.
 (* ---- session.go negotiateSession: the configuration of the stanza encoder ---- *)
 Definition so_se_ns_field : bytes := hex "732e6f75742e496e666f2e584d4c4e53". (* s.out.Info.XMLNS *)
 Definition so_se_from_cond : bytes := hex "732e6f75742e496e666f2e584d4c4e53203d3d207374616e7a612e4e53536572766572". (* s.out.Info.XMLNS == stanza.NSServer *)
-Definition so_se_from_value : bytes := hex "732e6f75742e496e666f2e46726f6d". (* s.out.Info.From *)
+Definition so_se_from_value : bytes := hex "732e4c6f63616c416464722829". (* s.LocalAddr() *)
 
 (* ---- internal/attr/idgen.go, internal/stream/stream.go ---- *)
 Definition so_id_len : nat := 16.
